@@ -15,6 +15,11 @@ STREAMS = {
                 overlay={'cmd/thermal-recorder/zz_verif_main.go': 'thermal-recorder/zz_verif_main.go',
                          'cmd/thermal-recorder/zz_verif_fs.go': 'thermal-recorder/zz_verif_fs.go',
                          'cmd/thermal-recorder/zz_verif_e2e.go': 'thermal-recorder/zz_verif_e2e.go'}),
+    'conc': dict(daemon='./cmd/thermal-recorder', race=True,
+                 overlay={'cmd/thermal-recorder/zz_verif_main.go': 'thermal-recorder/zz_verif_main.go',
+                          'cmd/thermal-recorder/zz_verif_fs.go': 'thermal-recorder/zz_verif_fs.go',
+                          'cmd/thermal-recorder/zz_verif_e2e.go': 'thermal-recorder/zz_verif_e2e.go',
+                          'cmd/thermal-recorder/zz_verif_conc.go': 'thermal-recorder/zz_verif_conc.go'}),
     'writer': dict(daemon='./cmd/thermal-writer', overlay={'cmd/thermal-writer/zz_verif_writer.go': 'thermal-writer/zz_verif_writer.go'}),
     'loglimiter': dict(pkg='./cmd/loglimiter', overlay={'loglimiter/zz_verif_loglimiter.go': 'loglimiter/zz_verif_loglimiter.go'}),
 }
@@ -178,6 +183,18 @@ PROPS = {
                  'file roll-over after one minute is not exercised in the quick tier'],
         assumptions=['frame streams without the clear marker (thermal-writer does not recognise it: observation in DESIGN.md)'],
     ),
+    'C16': dict(
+        lean=['Props.C16'],
+        streams=['conc'],
+        project={'conc': r'^$'},
+        rule='the real handleConn (two camera connections in a row, Boson frames larger than the bufio buffer, uniform pixel value = frame number) run concurrently with 1..4 goroutines calling '
+             'service.TakeSnapshot / TakeTestRecording / CameraInfo, GOMAXPROCS 1..16, built with -race; every snapshot is checked to be uniform (a whole frame) and not older than the last frame '
+             'completed when the request was made; data-race reports are read back and attributed to function pairs; non-trivial = at least 10 whole snapshots; the model side is the interleaving '
+             'transition system proved in Props/C16.lean (not executed: which frame a concurrent snapshot returns is not deterministic)',
+        trusted=['Go memory model, scheduler and the race detector are trusted/modelled, not verified', 'lockset table regenerated from the source by tools/gofacts (receiver types resolved by naming convention)',
+                 'the service layer is called at function level (no D-Bus daemon in the sandbox)'],
+        assumptions=['ring capacity >= 2 (capacity 1 tears: KNOWN-FINDING F10)'],
+    ),
 }
 
 NOT_APPLICABLE = {}
@@ -271,6 +288,14 @@ MANIFEST_TEXT = {
         note=_COMMON_NOTE + 'see trusted base in the evidence file.',
         technique='Lean 4 proof (induction / invariants over byte lists and transition systems) + differential correspondence end to end',
         design_ref='DESIGN.md 5/C18'),
+    'C16': dict(
+        text='Theorems over an interleaving transition system of the frame thread (fills the current slot word by word without the lock, then lock+Move+unlock) and a requester (lock, copy the previous slot word by word, unlock): '
+             'for every capacity >= 2, every frame size and contents and EVERY schedule a finished request holds exactly frame nAtLock-1 - the last frame completed when the lock was taken, never a mixture - and it is not older '
+             'than the last frame completed at request time; capacity 1 provably tears (known finding F10). Lockset instance decided in Lean over the access table regenerated from the source: the racy variables are exactly '
+             'CurrentFrame, StartSnapshot, headerInfo, processor (known findings F8, confirmed by the race detector); every FrameLoop field is protected. The real code is stressed under -race.',
+        note=_COMMON_NOTE + 'PARTIAL: the Go scheduler and memory model are modelled, not verified; which snapshot is returned is nondeterministic, so the stream is monitor-only.',
+        technique='Lean 4 proof (invariant over an interleaving transition system; decided lockset instance over regenerated facts) + race-detector stress of the real code',
+        design_ref='DESIGN.md 5/C16'),
     'C19': dict(
         text='Theorems for every capacity >= 1 and every operation sequence: GetHistory/Oldest/CopyRecent of the FrameLoop model equal a '
              'three-line list specification (refinement through a ghost state, proved by induction over the operation list); the model is '
